@@ -34,7 +34,7 @@ ASSUMPTIONS = [
     "Bit-exact comparison (NaN == NaN, -0.0 == 0.0); WeightedTensor values are compared where the weight is non-zero, weights exactly.",
     "The twin state is built by the harness with torch.where(accepted, proposed, previous) on the proposed variable only.",
 ]
-REQUIRED_CLASSES = {"ind:mixed-mask": 100, "ind:overflow": 40, "pop:rejected": 80, "step:individual": 40, "step:population": 40, "toy-weighted": 300, "nontrivial": 150}
+REQUIRED_CLASSES = {"ind:mixed-mask": 100, "ind:overflow": 40, "pop:rejected": 80, "step:individual": 40, "step:population": 40, "toy-weighted": 300, "ind:proposal-other-dtype": 60, "ind:tensor-accessor-reads": 150, "nontrivial": 150}
 
 OVERFLOW_SCALE = {"xi": 100.0, "tau": 2.5e5}
 
@@ -110,10 +110,31 @@ def _safe_read(c, s, name, *, ind_only):
     return True
 
 
+def _as64(v):
+    from leaspy.utils.weighted_tensor import WeightedTensor
+
+    if isinstance(v, WeightedTensor):
+        return WeightedTensor(v.value.double(), None if v.weight is None else v.weight.double())
+    return v.double()
+
+
 def _rows_equal(a, b, rows):
+    """exact equality of values (compared in float64: a proposal may carry another floating dtype than the value it replaces)"""
     if a is None or b is None:
         return a is None and b is None
-    return same(a[rows], b[rows])
+    return same(_as64(a[rows]), _as64(b[rows]))
+
+
+def _tensor_reads(c, s, names, tag):
+    """reads through the tensor accessor used by the samplers must agree with the mapping access"""
+    from leaspy.utils.weighted_tensor import WeightedTensor
+
+    vals = s.get_tensor_values(tuple(names))
+    for nm, tv in zip(names, vals):
+        ref = s[nm]
+        ref = ref.weighted_value if isinstance(ref, WeightedTensor) else ref
+        if isinstance(tv, WeightedTensor) or not same(tv, ref):
+            raise Fail(f"{tag}:get_tensor_values-disagrees-with-state", f"{nm} = {brief(tv)}", f"{nm} = {brief(ref)}")
 
 
 class Fail(Exception):
@@ -210,12 +231,17 @@ def body_ind(col: Collector, case):
         S0 = {k: fast_copy(v) for k, v in s._values.items()}
         old = fast_copy(s._values[name])
         delta = _delta(c, s, name, case["vals"], case["klass"])
+        if case.get("delta64") and delta.dtype == torch.float32 and name != "sources":  # (matrix products need one dtype)
+            delta = delta.double()  # a proposal computed in higher precision than the stored value
+            classes.append("ind:proposal-other-dtype")
         s.put(name, delta, accumulate=True)
         proposed = fast_copy(s._values[name])
         mid = 0
         for i in case["mid_reads"]:
             if _safe_read(c, s, _pick(c["ind_derived"], i), ind_only=True):
                 mid += 1
+                if case.get("tensor_reads"):
+                    _tensor_reads(c, s, [_pick(c["ind_derived"], i)], "ind")
             else:
                 col.exclude("mid-read-skipped(would evaluate a non-individual variable)")
         # from-scratch values at the fully proposed point
@@ -241,12 +267,22 @@ def body_ind(col: Collector, case):
                 raise Fail("rejected-rows-differ-from-pre-proposal", f"{k}[rejected] = {brief(v[rejected])}", f"{brief(S0[k][rejected])}")
             if accepted.any() and not _rows_equal(v, S1[k], accepted):
                 raise Fail("accepted-rows-differ-from-proposed", f"{k}[accepted] = {brief(v[accepted])}", f"{brief(S1[k][accepted])}")
+        if case.get("tensor_reads"):
+            cached = [k for k in (name,) + tuple(c["dag"].sorted_children[name]) if s._values[k] is not None]
+            _tensor_reads(c, s, cached, "ind")
+            classes.append("ind:tensor-accessor-reads")
         for k, v0 in S0.items():  # everything outside the fork is untouched
             if k == name or k in c["dag"].sorted_children[name]:
                 continue
             if not same(s._values[k], v0):
                 raise Fail("unrelated-value-changed", f"{k} = {brief(s._values[k])}", f"{brief(v0)}")
-        # (2)+(3) following history vs twin
+        # (2)+(3) following history vs twin. Not for proposals of another dtype: the restored rows then hold up-cast
+        # single-precision values, which legitimately differ (by rounding only) from a from-scratch double-precision evaluation
+        if case.get("delta64") and proposed.dtype != old.dtype:
+            mixed = bool(rejected.any() and accepted.any())
+            classes.append("ind:mixed-mask" if mixed else ("ind:all-rejected" if rejected.all() else "ind:none-rejected"))
+            col.case(classes=classes)
+            return
         twin = fresh_state(c["state0"])
         twin.auto_fork_type = s.auto_fork_type
         if case["cold"]:
@@ -254,7 +290,7 @@ def body_ind(col: Collector, case):
                 twin[name] = fast_copy(twin._values[name])
         with twin.auto_fork(None):
             m_ = rejected.reshape((n,) + (1,) * (old.ndim - 1))
-            twin[name] = torch.where(m_, old, proposed)
+            twin[name] = torch.where(m_, old.to(proposed.dtype), proposed)
         n_agg = _post_history(c, s, twin, case["post"], "ind")
     except Fail as f:
         col.fail("ind-proposal", f.bucket, case, observed=f.observed, expected=f.expected)
@@ -320,6 +356,8 @@ def body_pop(col: Collector, case):
         for i in case["mid_reads"]:
             try:
                 s[_pick(c["derived"], i)]
+                if case.get("tensor_reads"):
+                    s.get_tensor_value(_pick(c["derived"], i))
             except LeaspyModelInputError:
                 # the model refuses to evaluate an incoherent population value (documented error family):
                 # no decision can be taken on it; the caller can only go back, which must still work
@@ -354,6 +392,8 @@ def body_pop(col: Collector, case):
             with twin.auto_fork(None):
                 twin[name] = fast_copy(proposed_state._values[name])
         twin.auto_fork_type = s.auto_fork_type
+        if case.get("tensor_reads"):
+            _tensor_reads(c, s, [_pick(c["derived"], i) for i in case["mid_reads"]] + ["nll_attach"], "pop")
         n_agg = _post_history(c, s, twin, case["post"], "pop")
     except Fail as f:
         col.fail("pop-proposal", f.bucket, case, observed=f.observed, expected=f.expected)
@@ -520,7 +560,7 @@ def ind_case(draw, kinds):
         cold=draw(st.booleans()), pre_reads=draw(st.lists(st.integers(0, 60), max_size=4)),
         mid_reads=draw(st.lists(st.integers(0, 40), min_size=0, max_size=4)),
         mask=draw(st.one_of(st.just([1]), st.just([0]), st.lists(st.integers(0, 1), min_size=2, max_size=8), st.lists(st.integers(0, 1), min_size=2, max_size=8))),
-        post=draw(_post()),
+        post=draw(_post()), delta64=draw(st.sampled_from([False, False, True])), tensor_reads=draw(st.booleans()),
     )
     return c
 
@@ -533,7 +573,7 @@ def pop_case(draw, kinds):
         klass=draw(st.sampled_from(["normal", "normal", "big", "overflow"])), fork=draw(st.sampled_from(["ref", "copy"])),
         block=draw(st.sampled_from(["coord", "row", "whole"])), idx=[draw(st.integers(0, 5)), draw(st.integers(0, 5))],
         mid_reads=draw(st.lists(st.integers(0, 60), min_size=0, max_size=4)), reject=draw(st.sampled_from([True, True, False])),
-        post=draw(_post()),
+        post=draw(_post()), tensor_reads=draw(st.booleans()),
     )
     return c
 
